@@ -1,6 +1,8 @@
 \* As MC_Project_edges.cfg, thorough tier of C19: 3 resolver fields, 3 edit records, helpers {h, hc}, imports
 \* {alias, asfx, arsv, blank, blank2}, start = empty project or f1 + g in a.graphqls, histories <= 3.
-\* Measured: 4 217 states, 11 062 edges; 14 050 covering histories -> prefix tree 18 098 edges, 865 Generate runs; 7 s.
+\* Root struct customisations {rf, re}.
+\* Measured: 8 009 states (before the root struct: 4 217 states, 11 062 edges; 14 050 covering histories -> prefix tree
+\* 18 098 edges, 865 Generate runs; 7 s).
 INIT Init
 NEXT Next
 CONSTANTS
